@@ -39,7 +39,7 @@ for pid in sys.argv[1:]:
                               "claims_failing_input": rc == 1 and any(l.startswith("VIOLATION") and "no-failing-input-found" not in l for l in lines)}
                     print(os.path.basename(d), p, "quiet" if rc == 0 else ("FALSE FAILING INPUT" if fin[p]["claims_failing_input"] else "tie broken"),
                           "|", (lines[1] if len(lines) > 1 else "")[:170], flush=True)
-                    sh(["git", "checkout", "--", "lean/PyroModel/Gen/%s.lean" % p], cwd=V)
+                    sh(["git", "checkout", "--"] + sorted(glob.glob(os.path.join(V, "lean/PyroModel/Gen/%s*.lean" % p))), cwd=V)
             meta["final"] = fin
             json.dump(meta, open(mp, "w"), indent=1)
         finally:
